@@ -160,6 +160,19 @@ def sockbuf_lib(ctx):
     return out
 
 
+def _start_with_retries(sq, attempts=4):
+    """Instance start-up is bounded by a 60 s real-time limit in lockstep.wait_ready; on an overloaded machine
+    (ASan start-up + squid -z) that limit is occasionally exceeded.  A failed start is machinery, so retry it."""
+    for i in range(attempts):
+        try:
+            return sq.start()
+        except HarnessError as e:
+            if i == attempts - 1 or not re.search(r'not ready after|exited during start-up|squid -z failed|watchdog', str(e)):
+                raise
+            sq.kill()
+            time.sleep(2 + 3 * i)
+
+
 class Env:
     """One squid instance + the origin listener; the origin answers every request at once with the next version
     of the requested URL, except requests of actor W (X-Verif-Actor: W), which the schedule answers piecewise."""
@@ -184,7 +197,7 @@ class Env:
         self.arrivals = 0
 
     def start(self):
-        self.sq.start()
+        _start_with_retries(self.sq)
         return self
 
     def stop(self):
